@@ -33,7 +33,8 @@ CONSTANTS
   Dev_FloatCondNotFolded,          \* condexpr(): constant floating controlling expression is not selected
   Dev_UnevaluatedOperandFolded,    \* eval(): right operand of ||/&& folded (and may trap) although not evaluated
   Dev_NoDivisionGuard,             \* binary(): host division without guard: x/0, x%0, MIN/-1, MIN%-1 raise SIGFPE
-  Dev_CondSameTypeNoPromotion      \* condexpr(): `lt == rt` shortcut skips the usual arithmetic conversions (C05)
+  Dev_CondSameTypeNoPromotion,     \* condexpr(): `lt == rt` shortcut skips the usual arithmetic conversions (C05)
+  Dev_BareAddressMinusRejected     \* eval()/dataitem(): `P - C` on an address that is not already `P + C1` stays a TSUB node
 
 (* ====================================================================== *)
 (* Types                                                                    *)
@@ -228,9 +229,24 @@ ShiftValue(op, t, l, c) ==      \* l of the promoted type t, c the promoted righ
              ELSE IntResult(t, ZShl(l, k)))
        ELSE OkV(t, ZShrF(l, k))            \* negative signed: implementation-defined, arithmetic shift
 
+(* 6.4.4.1p5: the type of an integer constant is the first of the list in which its value can be represented *)
+NumCands(b, suf) ==
+  LET dec == b = 10 IN
+  CASE suf = "" -> (IF dec THEN <<"int", "long", "llong">> ELSE <<"int", "uint", "long", "ulong", "llong", "ullong">>)
+    [] suf = "u" -> <<"uint", "ulong", "ullong">>
+    [] suf = "l" -> (IF dec THEN <<"long", "llong">> ELSE <<"long", "ulong", "llong", "ullong">>)
+    [] suf = "ul" -> <<"ulong", "ullong">>
+    [] suf = "ll" -> (IF dec THEN <<"llong">> ELSE <<"llong", "ullong">>)
+    [] suf = "ull" -> <<"ullong">>
+NumType(b, suf, v) ==
+  LET c == NumCands(b, suf)
+      fit == {i \in 1..Len(c) : InRange(v, c[i])}
+  IN IF fit = {} THEN "none" ELSE c[CHOOSE i \in fit : \A j \in fit : i <= j]
+
 RECURSIVE TypeOf(_)
 TypeOf(e) ==
-  CASE e.k = "lit" -> e.t
+  CASE e.k \in {"lit", "leaf"} -> e.t
+    [] e.k = "num" -> (LET t == NumType(e.b, e.suf, e.v) IN IF t = "none" THEN "int" ELSE t)
     [] e.k = "cast" -> e.t
     [] e.k = "un" -> (IF e.op = "!" THEN "int" ELSE Promote(TypeOf(e.a)))
     [] e.k = "bin" -> (IF e.op \in RelOps \cup LogOps THEN "int"
@@ -240,7 +256,8 @@ TypeOf(e) ==
 
 RECURSIVE ConstEval(_)
 ConstEval(e) ==
-  CASE e.k = "lit" -> OkV(e.t, e.v)
+  CASE e.k \in {"lit", "leaf"} -> OkV(e.t, e.v)
+    [] e.k = "num" -> (LET t == NumType(e.b, e.suf, e.v) IN IF t = "none" THEN NoV("ub", "int") ELSE OkV(t, e.v))
     [] e.k = "cast" ->
          (LET a == ConstEval(e.a) IN IF a.st # "ok" THEN NoV(a.st, e.t) ELSE Conv(a.v, a.t, e.t))
     [] e.k = "un" ->
@@ -322,6 +339,7 @@ CastInt(u, t) ==
 KI(t, u) == [k |-> "c", t |-> t, u |-> u, f |-> DZero]
 KF(t, f) == [k |-> "c", t |-> t, u |-> C0, f |-> f]
 IsK(n) == n.k = "c"
+NBin(op, t, l, r) == [k |-> "bin", op |-> op, t |-> t, l |-> l, r |-> r]
 
 (* result of a fold step: st = "ok" (n is the resulting node), "trap" (the compiler dies with a signal), *)
 (* "error" (diagnosed, exit 1), "unspec" (outside the model: inexact floating result or host-undefined *)
@@ -422,6 +440,13 @@ Fold(n) ==
           ELSE IF ~IsK(a.n) THEN R("ok", [n EXCEPT !.a = a.n], a.dv)
           ELSE LET f == FoldCast(n.t, a.n) IN [f EXCEPT !.dv = @ \cup a.dv])
     [] n.k = "cond" -> R("ok", n, {})                     \* eval() has no EXPRCOND case
+    [] n.k = "addr" -> R("ok", n, {})
+    [] n.k = "deref" -> (LET a == Fold(n.a) IN IF a.st # "ok" THEN a ELSE R("ok", [n EXCEPT !.a = a.n], a.dv))
+    [] n.k = "amp" ->                                     \* `&*p` cancels: expr = eval(l->base)
+         (LET a == Fold(n.a) IN
+          IF a.st # "ok" THEN a
+          ELSE IF a.n.k = "deref" THEN (LET b == Fold(a.n.a) IN [b EXCEPT !.dv = @ \cup a.dv])
+          ELSE R("ok", [n EXCEPT !.a = a.n], a.dv))
     [] n.k = "bin" /\ n.op \in LogOps ->
          (LET a == Fold(n.l) IN
           IF a.st # "ok" THEN a
@@ -450,6 +475,22 @@ Fold(n) ==
                IF b.st # "ok" THEN [b EXCEPT !.dv = @ \cup a.dv]
                ELSE IF IsK(a.n) /\ IsK(b.n)
                     THEN LET f == FoldBinary(n.op, n.t, a.n, b.n) IN [f EXCEPT !.dv = @ \cup a.dv \cup b.dv]
+               ELSE IF n.t = "ptr" /\ n.op \in {"+", "-"}
+                    THEN \* TADD: `if (r->kind == EXPRBINARY) swap`; then (P + C1) +- C2 -> P + (C1 +- C2)
+                         LET sw == n.op = "+" /\ b.n.k = "bin"
+                             l == IF sw THEN b.n ELSE a.n
+                             r == IF sw THEN a.n ELSE b.n
+                             dv == a.dv \cup b.dv
+                             same == R("ok", [n EXCEPT !.l = a.n, !.r = b.n], dv)
+                         IN IF ~IsK(r) THEN same
+                            ELSE IF l.k = "bin" /\ l.t = "ptr" /\ l.op = "+" /\ IsK(l.r)
+                                 THEN LET f == FoldBinary(n.op, "ulong", l.r, r)
+                                      IN IF f.st # "ok" THEN [f EXCEPT !.dv = @ \cup dv]
+                                         ELSE R("ok", NBin("+", "ptr", l.l, f.n), dv \cup f.dv)
+                            ELSE IF n.op = "-" /\ l.k = "addr"
+                                 THEN (IF Dev_BareAddressMinusRejected THEN [same EXCEPT !.dv = @ \cup {"BareAddressMinusRejected"}]
+                                       ELSE LET f == FoldNeg("ulong", r) IN R("ok", NBin("+", "ptr", l, f.n), dv))
+                            ELSE same
                     ELSE R("ok", [n EXCEPT !.l = a.n, !.r = b.n], a.dv \cup b.dv))
 
 (* ====================================================================== *)
@@ -479,7 +520,17 @@ ImplCommonTab == [t1 \in ArithTypes |-> [t2 \in ArithTypes |-> ImplCommonDef(t1,
 ImplCommon(t1, t2) == ImplCommonTab[t1][t2]
 (* exprconvert(): a cast node unless the types are compatible *)
 Cv(n, t) == IF n.t = t THEN n ELSE [k |-> "cast", t |-> t, a |-> n]
-NBin(op, t, l, r) == [k |-> "bin", op |-> op, t |-> t, l |-> l, r |-> r]
+
+(* expr.c inttype(): first type of limits[] from the suffix's entry on, step 2 for decimal or unsigned-suffixed *)
+Limits == <<"int", "uint", "long", "ulong", "llong", "ullong">>
+SufIndex == [none |-> 0, u |-> 1, l |-> 2, ul |-> 3, ll |-> 4, ull |-> 5]
+(* type.c typehasint(t, i, false): i <= 0xffffffffffffffff >> (8 - size << 3) + issigned *)
+ImplHasInt(t, u) == ~CULt(CShr(COnes, (CB - CastBits(t)) + (IF IsSigned(t) THEN 1 ELSE 0)), u)
+ImplIntType(b, suf, u) ==
+  LET i0 == SufIndex[IF suf = "" THEN "none" ELSE suf]
+      step == IF i0 % 2 = 1 \/ b = 10 THEN 2 ELSE 1
+      cand == {i \in 0..5 : i >= i0 /\ (i - i0) % step = 0 /\ ImplHasInt(Limits[i + 1], u)}
+  IN IF cand = {} THEN "none" ELSE Limits[(CHOOSE i \in cand : \A j \in cand : i <= j) + 1]
 
 (* literal operand: the constant the leaf stands for *)
 LeafK(e) == IF IsFloat(e.t) THEN KF(e.t, e.v) ELSE KI(e.t, COfZ(e.v))
@@ -488,7 +539,9 @@ LeafK(e) == IF IsFloat(e.t) THEN KF(e.t, e.v) ELSE KI(e.t, COfZ(e.v))
 (* construction can already trap or report an error.                                                     *)
 RECURSIVE Build(_)
 Build(e) ==
-  CASE e.k = "lit" -> R("ok", LeafK(e), {})
+  CASE e.k \in {"lit", "leaf"} -> R("ok", LeafK(e), {})
+    [] e.k = "num" -> (LET t == ImplIntType(e.b, e.suf, COfZ(e.v))
+                       IN IF t = "none" THEN Bad("error", {}) ELSE R("ok", KI(t, COfZ(e.v)), {}))
     [] e.k = "cast" -> (LET a == Build(e.a) IN IF a.st # "ok" THEN a ELSE R("ok", [k |-> "cast", t |-> e.t, a |-> a.n], a.dv))
     [] e.k = "un" ->
          (LET a == Build(e.a) IN
@@ -530,6 +583,50 @@ Build(e) ==
                                  ELSE R("ok", [k |-> "cond", t |-> t, c |-> fc.n, a |-> la, b |-> lb],
                                         dv \cup (IF IsK(fc.n) THEN {"FloatCondNotFolded"} ELSE {})))
 
+
+(* ====================================================================== *)
+(* Address constants: &arr[i], arr + c, P + C1 +- C2 (6.6p9)                 *)
+(* ====================================================================== *)
+(* surface: [k "sym"] = arr;  [k "idx", a] = &arr[a];  [k "padd", op, p, c, sw] = p op c  (sw: written c + p) *)
+ESym == [k |-> "sym"]
+EIdx(a) == [k |-> "idx", a |-> a]
+EPAdd(op, p, c, sw) == [k |-> "padd", op |-> op, p |-> p, c |-> c, sw |-> sw]
+(* declarative: element index, defined while it stays within [0, an] (6.5.6p8) *)
+RECURSIVE PtrIndex(_, _)
+PtrIndex(e, an) ==
+  LET chk(i) == IF ZIsNeg(i) \/ ZLt(ZK(an), i) THEN NoV("ub", "ptr") ELSE OkV("ptr", i) IN
+  CASE e.k = "sym" -> OkV("ptr", Z0)
+    [] e.k = "idx" -> (LET a == ConstEval(e.a) IN IF a.st # "ok" THEN NoV(a.st, "ptr") ELSE chk(a.v))
+    [] e.k = "padd" -> (LET p == PtrIndex(e.p, an)
+                            c == ConstEval(e.c)
+                        IN IF p.st # "ok" THEN p ELSE IF c.st # "ok" THEN NoV(c.st, "ptr")
+                           ELSE chk(IF e.op = "+" THEN ZAdd(p.v, c.v) ELSE ZSub(p.v, c.v)))
+PtrEval(e, es, an) ==        \* byte offset from the array's symbol
+  LET i == PtrIndex(e, an) IN IF i.st # "ok" THEN i ELSE OkV("ptr", ZMul(i.v, ZK(es)))
+
+(* implementation: mkbinaryexpr(TADD/TSUB, pointer, integer) scales the integer as unsigned long *)
+Addr == [k |-> "addr", t |-> "ptr"]
+Scaled(n, es) == NBin("*", "ulong", Cv(n, "ulong"), KI("ulong", CK(es)))
+RECURSIVE PBuild(_, _)
+PBuild(e, es) ==
+  CASE e.k = "sym" -> R("ok", Addr, {})
+    [] e.k = "idx" ->       \* &arr[a] = &*(arr + a): mkunaryexpr keeps both nodes, eval() cancels them
+         (LET a == Build(e.a) IN
+          IF a.st # "ok" THEN a
+          ELSE R("ok", [k |-> "amp", t |-> "ptr", a |-> [k |-> "deref", t |-> "obj", a |-> NBin("+", "ptr", Addr, Scaled(a.n, es))]], a.dv))
+    [] e.k = "padd" ->
+         (LET p == PBuild(e.p, es) IN
+          IF p.st # "ok" THEN p
+          ELSE LET c == Build(e.c) IN
+               IF c.st # "ok" THEN [c EXCEPT !.dv = @ \cup p.dv]
+               ELSE R("ok", NBin(e.op, "ptr", p.n, Scaled(c.n, es)), p.dv \cup c.dv))
+(* qbe.c dataitem(): what an initializer may be *)
+DataItem(f) ==
+  IF f.st # "ok" THEN f
+  ELSE IF f.n.k = "addr" THEN R("ok", KI("ulong", C0), f.dv)
+  ELSE IF f.n.k = "bin" /\ f.n.op = "+" /\ f.n.l.k = "addr" /\ IsK(f.n.r) THEN R("ok", KI("ulong", f.n.r.u), f.dv)
+  ELSE Bad("error", f.dv)          \* "initializer is not a constant expression"
+
 (* FoldModel(e): what the consumer of a constant expression receives: eval(condexpr()) *)
 FoldModel(e) ==
   LET b == Build(e) IN
@@ -545,7 +642,18 @@ Lit(t, v)      == [k |-> "lit", t |-> t, v |-> v]
 ECast(t, a)    == [k |-> "cast", t |-> t, a |-> a]
 EUn(op, a)     == [k |-> "un", op |-> op, a |-> a]
 EBin(op, l, r) == [k |-> "bin", op |-> op, l |-> l, r |-> r]
+ENum(b, suf, v) == [k |-> "num", b |-> b, suf |-> suf, v |-> v]                 \* integer constant: base, suffix, value
+ELeaf(t, v, src, ty) == [k |-> "leaf", t |-> t, v |-> v, src |-> src, ty |-> ty]  \* sizeof/_Alignof/offsetof/enum constant
 ECond(c, a, b) == [k |-> "cond", c |-> c, a |-> a, b |-> b]
+
+(* `T *p = A;`: eval() then dataitem() *)
+FoldAddress(e, es) ==
+  LET b == PBuild(e, es) IN
+  IF b.st # "ok" THEN b ELSE LET f == Fold(b.n) IN DataItem([f EXCEPT !.dv = @ \cup b.dv])
+AgreesAddr(s, m) ==
+  CASE s.st = "ok" -> m.st = "ok" /\ m.n.u = COfZ(s.v)
+    [] s.st = "ub" -> m.st # "trap"
+    [] OTHER -> TRUE
 
 (* ====================================================================== *)
 (* Refinement: FoldModel (deviations off) => ConstEval                      *)
